@@ -6,6 +6,7 @@ import (
 	"math"
 
 	"github.com/deepteams/webp/internal/lossless"
+	"github.com/deepteams/webp/internal/verifhook"
 )
 
 // Alpha compression methods.
@@ -551,6 +552,9 @@ func applyFiltersAndEncode(alpha []byte, width, height, method, filter int,
 	reduceLevels bool, effortLevel int) ([]byte, error) {
 
 	tryMap := getFilterMap(alpha, width, height, filter, effortLevel)
+	if method != AlphaNoCompression { // (a raw plane is never filtered by this encoder)
+		tryMap = verifhook.Override("alpha.filter-map", tryMap)
+	}
 
 	type trial struct {
 		data  []byte
